@@ -10,7 +10,7 @@ import multiprocessing
 import os
 import random
 
-from .. import core, findlib as fl, gen_find_c02 as g
+from .. import core, findlib as fl, gen_find_c02 as g, gen_find_c02_soft as gs
 
 ATOL = 0.05
 NEGDIAG_TAG = "negative-diagonal-orthorhombic-cell"
@@ -44,7 +44,10 @@ RULE = ("a share of the structures (30 % random, 25 % grid) stores its atoms OUT
         "entries only above the diagonal or in a sparse subset of the off-diagonal entries. Stream of systematically "
         "distorted copies: atol 0.3-0.5 A, one pair of atoms (the search axis, automatic or hinted; bonds 1.1-1.5 A) moved "
         "apart/together by 0.40-0.46 atol each, validated with inside=0.5. Separate small stream for the KNOWN FINDING: diagonal cells with one or two "
-        "negative entries (3 quick / 20 thorough). Non-trivial = a planted copy straddles at least one cell face or the "
+        "negative entries (3 quick / 20 thorough). Stream of FLAT patterns (named collinear / planar ones and random rods of 3-5 "
+        "atoms along x / y / z / a general direction, random planar groups of 4-6 atoms; atol 0.001-0.1) with 1-3 copies "
+        "and 1-3 SOFT near misses: groups bent / puckered perpendicular to the pattern's line / plane so that every pairwise "
+        "distance stays within 0.3-0.85 atol while the best rigid fit has rmsd > 2.3 atol (must not be reported). Non-trivial = a planted copy straddles at least one cell face or the "
         "structure contains a decoy.")
 
 
@@ -318,6 +321,45 @@ def distorted(ctx, rng, n, pairs, n_tie):
             pairs.append((inp, case, res))
 
 
+def soft_decoys(ctx, rng, n, pairs, n_tie):
+    """flat patterns (rods of >= 3 atoms, planar groups of >= 4 atoms) with copies AND soft near misses: groups bent /
+    puckered perpendicular to the pattern's line / plane, every pairwise distance within the tolerance, positions
+    clearly outside it (gen_find_c02_soft).  Clause: nothing clearly outside the tolerance is reported; count = number
+    of occurrences."""
+    made = 0
+    while made < n:
+        case = gs.soft_case(rng)
+        if case is None:
+            ctx.count("generator:rejected")
+            continue
+        made += 1
+        atol = case["info"]["atol"]
+        hints = (None, None, None)
+        if rng.random() < 0.25:
+            h = g.pick_hints(rng, case["pattern"]["pos"])
+            ra, ro, _ = g.hint_levers(case["pattern"]["pos"], h)
+            if ro <= 3 and ra <= 2.5:
+                hints = h
+        inp = inp_of(case, atol=atol, hints=hints, seed=rng.randrange(1 << 30))
+        if rng.random() < 0.2:
+            inp["plain"] = True
+        res, bad = one(inp)
+        ctx.case(inp, nontrivial=True)
+        ctx.count("stream:flat-pattern-soft-decoys")
+        ctx.count("soft:pattern:" + case["info"]["pattern"])
+        ctx.count("soft:atol:%g" % atol)
+        ctx.count("soft:cross:%d" % g.crossings(case))
+        for k in set(case["info"]["kinds"]):
+            if k.startswith("decoy"):
+                ctx.count("soft:" + k)
+        if bad:
+            ctx.fail(bad, inp, observed=res.get("ok", res.get("err")), required="reported key set == planted key set, each once "
+                     "(the bent / puckered groups are no occurrences: best rigid fit rmsd > 2 atol)",
+                     tags=tags_of(case) + ["soft-decoy", "hints:" + hint_kind(hints)])
+        elif len(pairs) < n_tie + 40 and "ok" in res and "hook" in res and rng.random() < 0.3:
+            pairs.append((inp, case, res))
+
+
 # ------------------------------------------------------------------ the check
 
 def tie(ctx, pairs):
@@ -461,6 +503,8 @@ def run(ctx, oracle_only=False, scale=1):
             pairs.append((inp, case, res))
     sequences(ctx, rng, ctx.n(24, 200) * scale)
     distorted(ctx, rng, ctx.n(60, 600) * scale, pairs, n_tie)
+    # own generator forked from the state of ctx.rng (a function of it, consuming nothing: the streams below stay as they were)
+    soft_decoys(ctx, random.Random("c02-soft|%r" % (rng.getstate()[1][:16],)), ctx.n(60, 500) * scale, pairs, n_tie)
     # boundary grid: complete in the thorough tier, a random sample in the quick tier
     tasks = grid_tasks()
     if ctx.tier == "quick" and scale == 1:
